@@ -20,6 +20,11 @@ fn opt_execute<T>(
 where
     T: State + Clone,
 {
+    // output of a command that is rolled back must not be kept
+    let (real_out, real_err) = (out, err);
+    let (mut out_buf, mut err_buf) = (Vec::<u8>::new(), Vec::<u8>::new());
+    let (out, err) = (&mut out_buf, &mut err_buf);
+
     let state_clone = state.clone();
     let mut cur_loc = state.push_code((*code).clone());
     let length = cur_loc + 1;
@@ -155,6 +160,8 @@ where
         cur_loc += 1;
     }
 
+    real_out.write_all(&out_buf)?;
+    real_err.write_all(&err_buf)?;
     Ok((state, true))
 }
 
